@@ -743,7 +743,13 @@ func Main(args []string) int {
 		if spec == nil {
 			return 2
 		}
-		w := bufio.NewWriterSize(os.Stdout, 1<<16)
+		// the protocol stream is the real stdout; anything the application itself prints to
+		// os.Stdout (debug prints in the repository) is diverted so it cannot corrupt a line
+		protocol := os.Stdout
+		if dn, err := os.OpenFile(os.DevNull, os.O_WRONLY, 0); err == nil {
+			os.Stdout = dn
+		}
+		w := bufio.NewWriterSize(protocol, 1<<16)
 		Worker(spec, *seed, *tier, *from, *to, w)
 		w.Flush()
 		return 0
